@@ -396,7 +396,7 @@ func (s *c04sess) checkForks() bool {
 
 func runC04(c *h.Ctx) {
 	c.Run("edits", c.N(20000, 400000), func(cs *h.Case) {
-		sc := gen.GenSchema(cs.R, gen.Cfg{MaxDepth: 3, MaxFields: 5, StructKeys: cs.R.Chance(30), BigIDs: true, Recursive: true})
+		sc := gen.GenSchema(cs.R, gen.Cfg{MaxDepth: 3, MaxFields: 5, StructKeys: cs.R.Chance(30), BigIDs: true, Recursive: true, SharedNames: cs.R.Bool()})
 		root := structType(sc.Root)
 		idl := sc.IDL()
 		cs.Info("idl", idl)
